@@ -66,13 +66,13 @@ def wrap_handle(hub, s):
     ioproxy.wrap_open_handles(hub, s.db.storage)
 
 
-def run_with_monitor(s, op, monitor):
+def run_with_monitor(s, op, monitor, in_with_block=False):
     hub = ioproxy.IOHub()
     hub.primary = s.path
     hub.monitor = monitor
     with ioproxy.Installed(hub):
         wrap_handle(hub, s)
-        out = s.do(op)
+        out = s.do_in_with_block(op) if in_with_block else s.do(op)
     hub.monitor = ioproxy.NullMonitor()
     hub.enabled = False
     return out
@@ -355,7 +355,10 @@ def sweep_op(res, s, op, scratch, rng, tier):
                 mon = FaultAt(k, when, err)
                 with quiet_stdout():
                     warm_reads(t)  # anything the object remembers about earlier answers is in place before the fault
-                    out = run_with_monitor(t, op, mon)
+                    in_with = rng.random() < 0.12
+                    if in_with:
+                        res.count("faulted_ops_inside_a_with_block")
+                    out = run_with_monitor(t, op, mon, in_with_block=in_with)
                 if mon.hit is None:
                     res.count("fault_position_not_reached")
                     continue
